@@ -144,8 +144,10 @@ def deprecatedToUsefulText(ctx:model.Documentable, name:str, deprecated:ast.Call
     if replacement is not None and not validate_identifier(replacement):
         # The replacement is not an identifier, so don't even try to resolve it.
         # By adding extras backtics, we make the replacement a literal text.
-        replacement = replacement.replace('\n', ' ')
-        replacement = f"`{replacement}`"
+        # It must stay a literal for the reST parser whatever it contains: docutils splits lines 
+        # like str.splitlines() (so not only on '\n') and a backtick could end the literal.
+        replacement = ' '.join(replacement.split()).replace('`', "'")
+        replacement = f"`{replacement}`" if replacement else None
     
     if replacement is not None:
         text = _deprecation_text_with_replacement_template.format(
